@@ -67,10 +67,11 @@ def main():
     for n in range(1, 21):
         pid = f'C{n:02d}'
         src = f'/tmp/mutout_{pid}'
-        for var, suffix in (('a', ''), ('b', '_B'), ('c', '_C'), ('d', None), ('e', None)):
+        for var, suffix in (('a', ''), ('b', '_B'), ('c', '_C'), ('d', None), ('e', None),
+                            ('f', None), ('g', None)):
             sid = f'{pid}-{var}'
-            if suffix is None:          # second round: one directory per change
-                src, suffix = f'/tmp/mutout2_{sid}', ''
+            if suffix is None:          # later rounds: one directory per change
+                src, suffix = f"/tmp/mutout{'2' if var in 'de' else '3'}_{sid}", ''
             else:
                 src = f'/tmp/mutout_{pid}'
             pf = f'{src}/patch{suffix}.diff'
@@ -88,6 +89,9 @@ def main():
             nf = f'{src}/notes{suffix}.md'
             if os.path.exists(nf):
                 shutil.copy(nf, f'{d}/notes.md')
+            for extra in ('before.txt', 'after.txt'):
+                if os.path.exists(f'{src}/{extra}'):
+                    shutil.copy(f'{src}/{extra}', f'{d}/{extra}')
             print('==', sid, flush=True)
             res = trial(sid, d, pid, override.get(sid))
             prev = f'{d}/trial.json'
